@@ -16,6 +16,7 @@ package lisp
 //@   inline
 
 //@ func (*CallStack).checkHeightPhysical
+//@   nopanic
 //@   requires s != nil
 //@   ensures  [exact] (result == nil) == physOK(s)
 //@   ensures  [errtype] result != nil ==> typeis(result, *PhysicalStackOverflowError)
@@ -23,30 +24,35 @@ package lisp
 //@   property C04
 
 //@ func (*CallStack).CheckHeight
+//@   nopanic
 //@   requires s != nil
 //@   ensures  [exact] (result == nil) == logOK(s)
 //@   modifies nothing
 //@   property C04
 
 //@ func (*CallStack).checkHeightPush
+//@   nopanic
 //@   requires s != nil
 //@   ensures  [exact] (result == nil) == (physOK(s) && logOK(s))
 //@   modifies nothing
 //@   property C04
 
 //@ func (*CallStack).CheckTailIterations
+//@   nopanic
 //@   requires s != nil
 //@   ensures  [exact] (result == nil) == tailOK(s)
 //@   modifies nothing
 //@   property C04
 
 //@ func (*CallStack).CheckTailCall
+//@   nopanic
 //@   requires s != nil
 //@   ensures  [exact] (result == nil) == (logOK(s) && tailOK(s))
 //@   modifies nothing
 //@   property C04 C02
 
 //@ func (*CallStack).PushFID
+//@   nopanic
 //@   requires s != nil && physBound(s)
 //@   ensures  [decision] (result == nil) == (old(physOK(s)) && old(logOK(s)))
 //@   ensures  [refused-unchanged] result != nil ==> len(s.Frames) == old(len(s.Frames)) && same(s, len(s.Frames))
@@ -62,6 +68,7 @@ package lisp
 //@   property C04 C05 C18
 
 //@ func (*CallStack).Pop
+//@   nopanic
 //@   requires s != nil
 //@   panics-when len(s.Frames) < 1
 //@   ensures  [popped-one] len(s.Frames) == old(len(s.Frames)) - 1 && same(s, len(s.Frames))
@@ -85,6 +92,7 @@ package lisp
 // ---------------------------------------------------------------- runtime.go
 
 //@ func (*Runtime).beginEval
+//@   nopanic
 //@   inline
 //@   requires r != nil
 //@   ensures  [depth] r.evalDepth == old(r.evalDepth) + 1
@@ -93,6 +101,7 @@ package lisp
 //@   modifies r.evalDepth, r.steps, r.totalSteps
 //@   property C04 C05
 //@ func (*Runtime).endEval
+//@   nopanic
 //@   inline
 //@   requires r != nil
 //@   ensures  [depth] old(r.evalDepth) > 0 ==> r.evalDepth == old(r.evalDepth) - 1
@@ -105,6 +114,7 @@ package lisp
 //@   inline
 
 //@ func (*Runtime).evalNestingExceeded
+//@   nopanic
 //@   requires r != nil
 //@   ensures  [exact] result == (r.MaxEvalNesting >= 0 && r.evalNesting > ite(r.MaxEvalNesting == 0, DefaultMaxEvalNesting, r.MaxEvalNesting))
 //@   modifies nothing
@@ -135,12 +145,14 @@ package lisp
 //@   property C04
 
 //@ func (*Runtime).PushCondition
+//@   nopanic
 //@   requires r != nil
 //@   ensures  [pushed] len(r.conditionStack) == old(len(r.conditionStack)) + 1 && r.conditionStack[len(r.conditionStack)-1] == err
 //@   ensures  [below-unchanged] forall(j, 0, old(len(r.conditionStack)), r.conditionStack[j] == old(r.conditionStack[j]))
 //@   property C05 C06
 
 //@ func (*Runtime).PopCondition
+//@   nopanic
 //@   requires r != nil
 //@   ensures  [popped] old(len(r.conditionStack)) > 0 ==> len(r.conditionStack) == old(len(r.conditionStack)) - 1 && result == old(r.conditionStack[len(r.conditionStack)-1])
 //@   ensures  [empty] old(len(r.conditionStack)) == 0 ==> result == nil && len(r.conditionStack) == 0
@@ -149,6 +161,7 @@ package lisp
 //@   property C05 C06
 
 //@ func (*Runtime).CurrentCondition
+//@   nopanic
 //@   requires r != nil
 //@   ensures  [top] len(r.conditionStack) > 0 ==> result == r.conditionStack[len(r.conditionStack)-1]
 //@   ensures  [empty] len(r.conditionStack) == 0 ==> result == nil
@@ -160,6 +173,20 @@ package lisp
 //@ functype context.Context.Err
 //@   pure
 //@   ensures result == uf("errCtx", arg0)
+
+//@ functype Map.Len
+//@   pure
+
+//@ functype Profiler.Start
+//@   modifies nothing
+//@   nopanic
+//@   result-func-pure
+
+//@ func (*LEnv).trace
+//@   requires env != nil && env.Runtime != nil
+//@   modifies nothing
+//@   nopanic
+//@   result-func-pure
 
 //@ functype Debugger.IsEnabled
 //@   pure
@@ -366,6 +393,9 @@ package lisp
 //@ assume-range Runtime.evalDepth 0 4611686018427387904
 //@ assume-range CallFrame.HeightLogical 0 4611686018427387904
 
+//@ immutable LEnv.Runtime property C05 C09
+//@ immutable Runtime.Stack property C05
+
 //@ pred BAL(env) = env.Runtime == old(env.Runtime) && env.Runtime.Stack == old(env.Runtime.Stack) && len(env.Runtime.Stack.Frames) == old(len(env.Runtime.Stack.Frames)) && env.Runtime.evalNesting == old(env.Runtime.evalNesting) && len(env.Runtime.conditionStack) == old(len(env.Runtime.conditionStack)) && env.Runtime.evalDepth == old(env.Runtime.evalDepth)
 //@ pred KEEP(env) = rtOK(env) && env.Runtime == old(env.Runtime) && env.Runtime.Stack == old(env.Runtime.Stack) && len(env.Runtime.Stack.Frames) == old(len(env.Runtime.Stack.Frames)) && env.Runtime.evalNesting == old(env.Runtime.evalNesting) && len(env.Runtime.conditionStack) == old(len(env.Runtime.conditionStack))
 
@@ -374,8 +404,11 @@ package lisp
 //@   ensures  BAL(arg0)
 //@   ensures-on-panic BAL(arg0)
 
+//@ pred PUSHED(env) = rtOK(env) && env.Runtime == old(env.Runtime) && env.Runtime.Stack == old(env.Runtime.Stack) && len(env.Runtime.Stack.Frames) == old(len(env.Runtime.Stack.Frames)) + 1 && env.Runtime.evalNesting == old(env.Runtime.evalNesting) && len(env.Runtime.conditionStack) == old(len(env.Runtime.conditionStack)) && env.Runtime.evalDepth == old(env.Runtime.evalDepth)
+
 //@ func (*LEnv).eval
 //@   requires rtOK(env)
+//@   loop 1 (_) invariant rtOK(env) && env.Runtime == old(env.Runtime) && env.Runtime.Stack == old(env.Runtime.Stack) && len(env.Runtime.Stack.Frames) == old(len(env.Runtime.Stack.Frames)) && env.Runtime.evalNesting == old(env.Runtime.evalNesting) + 1 && len(env.Runtime.conditionStack) == old(len(env.Runtime.conditionStack)) && env.Runtime.evalDepth == old(env.Runtime.evalDepth)
 //@   ensures  [balanced] BAL(env)
 //@   nopanic
 //@   property C05 C04
@@ -388,6 +421,8 @@ package lisp
 
 //@ func (*LEnv).evalSExprCells
 //@   requires rtOK(env)
+//@   loop 1 (rangeindex) invariant -1 <= rangeindex && rangeindex < old(len(s.Cells)) - 1
+//@   loop 1 (rangeindex) invariant KEEP(env) && env.Runtime.evalDepth == old(env.Runtime.evalDepth)
 //@   ensures  [balanced] BAL(env)
 //@   ensures  [loc-restored] env.loc == old(env.loc)
 //@   ensures-on-panic [balanced-on-panic] BAL(env)
@@ -396,12 +431,14 @@ package lisp
 
 //@ func (*LEnv).funCall
 //@   requires rtOK(env)
+//@   loop 1 (_) invariant PUSHED(env)
 //@   ensures  [balanced] BAL(env)
 //@   ensures-on-panic [balanced-on-panic] BAL(env)
 //@   property C05 C02
 
 //@ func (*LEnv).specialOpCall
 //@   requires rtOK(env)
+//@   loop 1 (_) invariant PUSHED(env)
 //@   ensures  [balanced] BAL(env)
 //@   ensures-on-panic [balanced-on-panic] BAL(env)
 //@   property C05 C02
@@ -414,6 +451,12 @@ package lisp
 
 //@ func (*LEnv).call
 //@   requires rtOK(env)
+//@   assume-at eval [single-runtime-per-env-tree] arg0 != nil && arg0.Runtime == env.Runtime
+//@   loop 1 (_) invariant [rt] rtOK(env) && env.Runtime == old(env.Runtime) && env.Runtime.Stack == old(env.Runtime.Stack)
+//@   loop 1 (_) invariant [frames] len(env.Runtime.Stack.Frames) == old(len(env.Runtime.Stack.Frames))
+//@   loop 1 (_) invariant [nesting] env.Runtime.evalNesting == old(env.Runtime.evalNesting)
+//@   loop 1 (_) invariant [conds] len(env.Runtime.conditionStack) == old(len(env.Runtime.conditionStack))
+//@   loop 1 (_) invariant [depth] env.Runtime.evalDepth == old(env.Runtime.evalDepth)
 //@   ensures  [balanced] BAL(env)
 //@   ensures-on-panic [balanced-on-panic] BAL(env)
 //@   property C05
